@@ -44,13 +44,20 @@ func isDestination(fn *ssa.Function, i int) (bool, string) {
 		}
 		return false, ""
 	}
+	_ = pn
+	// the destination is the first parameter after the receiver in the cipher.AEAD / cipher.Block / hash.Hash contracts
+	// (by position: parameter names are not part of an interface contract)
+	first := 0
+	if recv {
+		first = 1
+	}
 	switch name {
 	case "Seal", "Open", "Encrypt", "Decrypt":
-		if pn == "dst" {
+		if recv && i == first {
 			return true, "destination of the AEAD/Block contract"
 		}
 	case "Sum":
-		if pn == "in" {
+		if recv && i == first {
 			return true, "append contract of hash.Hash.Sum"
 		}
 	}
